@@ -22,6 +22,7 @@ CONSTANTS
   ExistingSets,   \* existing composed resources: sorted sequences over {"a","z"}
   GrpcExtras,     \* cluster contents for which pipelines of <= GrpcMaxSteps steps are also run over gRPC
   GrpcMaxSteps,
+  Grpc3Progs,     \* pipelines of any length made of these programs only also run over gRPC
   Ops,            \* routing operations
   MaxOps
 
@@ -33,13 +34,17 @@ Ex1 == {<<"e1">>}
 Ex2 == {<<"e1">>, <<"e1", "e2">>}
 Old2 == {<<>>, <<"a", "z">>}
 Old3 == {<<>>, <<"a">>, <<"a", "z">>}
-SomeProgs == {ProgAddA, ProgAddB, ProgDropA, ProgRenAC, ProgMutate, ProgGrow, ProgCount2, ProgFatal, ProgRelabel, ProgWiden}
+SomeProgs == {ProgAddA, ProgAddB, ProgDropA, ProgRenAC, ProgMutate, ProgGrow, ProgCount2, ProgFatal, ProgRelabel, ProgWiden, ProgClear}
+\* three-step pipelines that also run over gRPC in the quick tier (step 2 is served by the v1beta1-only server): a step that sets the
+\* context, one that returns none, one that reads it (added after the seeded change C04-m9 - the fallback client carries the
+\* request's context over when the response has none - was only in reach of the thorough tier)
+CtxProgs == {ProgAddA, ProgClear, ProgAddB}
 NoOps == {}
 
 PipeInput(x) ==
   \E n \in 1..MaxSteps : \E ps \in [1..n -> IF n = 3 THEN Progs3 ELSE Progs12] :
   \E ex \in ExtraSets : \E old \in ExistingSets :
-  \E tr \in (IF n <= GrpcMaxSteps /\ ex \in GrpcExtras THEN {"inproc", "grpc"} ELSE {"inproc"}) :
+  \E tr \in (IF (n <= GrpcMaxSteps \/ \A i \in 1..n : ps[i] \in Grpc3Progs) /\ ex \in GrpcExtras THEN {"inproc", "grpc"} ELSE {"inproc"}) :
     x = [family |-> "pipeline", steps |-> ps, extras |-> ex, existing |-> old, transport |-> tr, ops |-> <<>>]
 
 RouteInput(x) ==
